@@ -196,8 +196,18 @@ def same(a: ast.AST, b: ast.AST) -> tuple[bool, str]:
 
 
 def body_same(a: ast.AST, b: ast.AST, ignore_name: bool = True) -> tuple[bool, str]:
-    """Compare two function definitions ignoring their names and parameter annotations."""
+    """Compare two function definitions ignoring their names and parameter annotations, the
+    way their conditions / returns are written (normal form) and the names of their locals."""
+    from .normalize import alpha, clone, norm
+
     ea, eb = erase(a), erase(b)
+    if isinstance(ea, (ast.FunctionDef, ast.AsyncFunctionDef)) and isinstance(eb, (ast.FunctionDef, ast.AsyncFunctionDef)):
+        ea, eb = alpha(clone(norm(ea))), alpha(clone(norm(eb)))
+        for x in (ea, eb):
+            for n_ in ast.walk(x):
+                for attr in ("_parent", "_orig"):
+                    if hasattr(n_, attr):
+                        delattr(n_, attr)
     if ignore_name and isinstance(ea, ast.FunctionDef) and isinstance(eb, ast.FunctionDef):
         ea.name = eb.name = "f"
         ea.decorator_list = []
